@@ -9,6 +9,7 @@ mod inputs;
 mod mon_a;
 mod mon_b;
 mod mon_c;
+mod mon_d;
 mod render;
 mod scalars;
 mod util;
@@ -117,6 +118,8 @@ fn run(args: &Args) {
         }
         "C03" => mon_c::run_c03(&args.tier, args.seed, args.shard, args.nshards, args.scale, &mut stats),
         "C06" => mon_c::run_c06(&args.tier, args.seed, args.shard, args.nshards, args.scale, &mut stats),
+        "C04" => mon_d::run_c04(&args.tier, args.seed, args.shard, args.nshards, args.scale, &mut stats),
+        "C05" => mon_d::run_c05(&args.tier, args.seed, args.shard, args.nshards, args.scale, &mut stats),
         p => {
             eprintln!("unknown property {p}");
             std::process::exit(2);
@@ -145,6 +148,8 @@ fn replay(path: &str) {
         }
         "C03" => mon_c::replay_c03(&case, &mut stats),
         "C06" => mon_c::replay_c06(&case, &mut stats),
+        "C04" => mon_d::replay_c04(&case, &mut stats),
+        "C05" => mon_d::replay_c05(&case, &mut stats),
         p => {
             eprintln!("replay: unknown property {p}");
             std::process::exit(2);
